@@ -6,7 +6,7 @@ import numpy as np
 import z3
 from vf.check import Run
 from vf import engp, pproof
-from vf.engp import sym, rv, SymReal, SA, symvec
+from vf.engp import sym, rv, SymReal, SymBool, SA, symvec
 from props.C01 import modules, vec
 
 
@@ -156,6 +156,59 @@ def score_obligations(M, T, ctxf, n):
     return obls, npaths
 
 
+def excludenull_obligations(M, T, ctxf, n):
+    """excludenull: the score of series with NaN / inf scattered in either series equals the score of the series with the incomplete pairs
+    removed.  Every element is a symbolic value that may be NaN or infinite; the real function runs with excludenull=True, then again on the
+    pairs the path kept; both outcomes (value, NaN, or ValueError) must coincide."""
+    mk = lambda nm: SymReal(z3.Real(nm), z3.Bool(nm + '!nan'), z3.Bool(nm + '!inf'))
+    o = [mk('o%d' % i) for i in range(n)]; s = [mk('s%d' % i) for i in range(n)]
+    names = ['o%d' % i for i in range(n)] + ['s%d' % i for i in range(n)]
+    base = [z3.Not(z3.And(x.nan, x.inf)) for x in o + s]
+    obls = []; npaths = 0
+    finite = lambda x: SymBool(z3.And(z3.Not(x.nan), z3.Not(x.inf)))
+
+    def same(a, b):
+        a = SymReal.lift(a); b = SymReal.lift(b)
+        bad_a = z3.Or(a.nan, a.inf); bad_b = z3.Or(b.nan, b.inf)
+        return z3.Or(z3.And(bad_a, bad_b), z3.And(z3.Not(bad_a), z3.Not(bad_b), a.val == b.val))
+    for fname in ('bias', 'nse', 'kge'):
+        f = getattr(M, fname)
+
+        def call(f=f):
+            try:
+                r1 = ('ok', f(vec(o), vec(s), excludenull=True))
+            except ValueError:
+                r1 = ('ValueError', None)
+            keep = [i for i in range(n) if bool(finite(o[i]) & finite(s[i]))]
+            if not keep:
+                r2 = ('ValueError', None)
+            else:
+                try:
+                    r2 = ('ok', f(vec([o[i] for i in keep]), vec([s[i] for i in keep])))
+                except ValueError:
+                    r2 = ('ValueError', None)
+            return r1, r2, keep
+        with ctxf():
+            paths = engp.explore(call, base=base, allowed_exc=(Exception,), max_paths=2048)
+        npaths += len(paths)
+        for k, p in enumerate(paths):
+            hyps = base + p.pc + p.axioms
+            pid = 'metrics.py/%s[excludenull](n=%d)/path%d' % (fname, n, k)
+            if p.exc is not None:
+                if isinstance(p.exc, (engp.Unsupported, engp.PathLimit)):
+                    raise p.exc
+                obls.append(pproof.PObligation(pid + '/no-exception', 'exception', '%s(excludenull=True) raises %s' % (fname, type(p.exc).__name__), hyps, z3.BoolVal(False), names)); continue
+            r1, r2, keep = p.result
+            if r1[0] != r2[0]:
+                goal = z3.BoolVal(False)
+            elif r1[0] == 'ok':
+                goal = same(r1[1], r2[1])
+            else:
+                goal = z3.BoolVal(True)
+            obls.append(pproof.PObligation(pid + '/pairs-removed', 'post', '%s with excludenull on series of length %d equals the score of the %d complete pairs (same value, or both undefined)' % (fname, n, len(keep)), hyps, goal, names))
+    return obls, npaths
+
+
 def numpy_contracts(r):
     """the assumed contracts of numpy mean / std / corrcoef (NPX above) against real numpy on random concrete vectors"""
     rng = np.random.default_rng(r.seed); bad = 0; n = 0
@@ -271,6 +324,9 @@ def run(tier):
         obls, npaths = binary_obligations(M, ctxf)
         for n in ((2, 3) if tier == 'quick' else (2, 3, 4)):
             o2, p2 = score_obligations(M, T, ctxf, n); obls += o2; npaths += p2
+        o3, p3 = excludenull_obligations(M, T, ctxf, 2); obls += o3; npaths += p3
+        if tier != 'quick':
+            o3, p3 = excludenull_obligations(M, T, ctxf, 3); obls += o3; npaths += p3
 
         def replay(ob, model):
             if '/binary/' not in ob.id:
